@@ -35,6 +35,8 @@ OBJ = {
     'class': 'class O:\n    "doc"\n    def m(self): "m"\n    class N:\n        "n"\n',
     'func': 'def O(): "doc"\n',
     'var': 'O = 1\n"doc"\n',
+    # the members of the moved class refer to a sibling of the defining module that is re-exported under ANOTHER name
+    'class+sibling': 'class O:\n    "doc"\n    def m(self, x: "T0") -> "T0": "m"\n    class N:\n        "n"\n        def deep(self, y: "T0") -> "T0": "d"\nclass T0:\n    "t"\n',
     'class+sub': 'class O:\n    "doc"\n    def m(self): "m"\nclass OSub(O):\n    "sub"\n',
 }
 ORIGIN = {
@@ -147,9 +149,14 @@ def _program(kind: str, rex: str, form: str, origin: str, consumers: Sequence[st
         # a star import only sees the names of the origin's __all__: the object would not be imported at all
         imp = 'from ._impl import O\n'
     if origin == 'via-compat':
-        mods['_compat'] = 'from ._impl import O\n' if form != 'star' else 'from ._impl import *\n'
+        mods['_compat'] = ('from ._impl import O\n' if form != 'star' else 'from ._impl import *\n') + ('from ._impl import T0\n' if kind == 'class+sibling' else '')
         imp = imp.replace('from ._impl import', 'from ._compat import')
+    if kind == 'class+sibling':
+        src_mod = '._compat' if origin == 'via-compat' else '._impl'
+        imp = imp + f'from {src_mod} import T0 as PubT0\n'
     rex_src = (f'__all__ = ["{exported}"]\n' + imp) if allform == 'before-import' else imp + ALLFORMS[allform or 'list'].replace('{E}', exported)
+    if kind == 'class+sibling':
+        rex_src = rex_src.replace(f'["{exported}"]', f'["{exported}", "PubT0"]').replace(f'("{exported}",)', f'("{exported}", "PubT0")')
     if rex == 'init':
         mods['p'] = rex_src
     else:
@@ -198,6 +205,16 @@ def judge_build(s: Any, kind: str, new_full: str, cons: Sequence[Tuple[str, str,
         want = {new_full + '.m'} | ({new_full + '.N'} if kind == 'class' else set())
         if not want <= set(members):
             probs.append(('member-not-moved', '-'))
+        if kind == 'class+sibling':
+            T = s.allobjects.get(new_full.rsplit('.', 1)[0] + '.PubT0')
+            if T is None:
+                probs.append(('sibling-not-at-new-location', '-'))
+            else:
+                for mname in ('m', 'N.deep'):
+                    mo = s.allobjects.get(f'{new_full}.{mname}')
+                    if mo is not None and flatten(format_signature(mo)).count('href="%s"' % T.url) != 2:
+                        probs.append(('member-annotation-to-renamed-sibling-unlinked', '-'))
+                        break
         if kind == 'class+sub':
             sub = s.allobjects.get(f'{DEF[0]}.OSub')
             if sub is None or sub.baseobjects != [O]:
